@@ -249,13 +249,13 @@ func init() {
 				d.Do(Ev{"op": "size.new", "kind": "uint64", "repr": vs, "unit": B(u)})
 			}
 			// beyond 64 bits as text
-			for _, vs := range []string{"18446744073709551616", "18446744073709551615", "99999999999999999999", "100000000000000000000000", "000000000000000000000000001", "00"} {
+			for _, vs := range []string{"0100", "0010", "08", "09", "0755", "0x10", "0b1", "0o7", "1_0", "18446744073709551616", "18446744073709551615", "99999999999999999999", "100000000000000000000000", "000000000000000000000000001", "00"} {
 				parse(vs+u, 0)
 			}
 		}
 		// (2) grammar-generated texts with every separator placement
 		seps := []string{"", " ", "_", " ", "  ", " _", "_ ", "  ", "__"}
-		numbers := [][]string{{"1"}, {"1", "000"}, {"12", "345", "678"}, {"0"}, {"0", "0"}, {"1", "8", "4"}, {"18446744073709551", "615"}, {"18", "446744073709551616"}}
+		numbers := [][]string{{"0100"}, {"08"}, {"0", "755"}, {"010"}, {"09"}, {"1"}, {"1", "000"}, {"12", "345", "678"}, {"0"}, {"0", "0"}, {"1", "8", "4"}, {"18446744073709551", "615"}, {"18", "446744073709551616"}}
 		units := []string{"", "B", "KiB", "kB", "EiB", "ZB", "XB", "MiB"}
 		k := 0
 		for _, ns := range numbers {
@@ -275,6 +275,13 @@ func init() {
 							}
 						}
 					}
+				}
+			}
+		}
+		if d.Shard == 4%d.NShards {
+			for _, cf := range confusables {
+				for _, t := range []string{cf, "1" + cf, cf + "1", "1" + cf + "KiB", "1 " + cf + "B", "1K" + cf + "B"} {
+					parse(t, 0)
 				}
 			}
 		}
